@@ -290,19 +290,23 @@ func pageGuarded(f *ssa.Function, at ssa.Instruction, pv ssa.Value) bool {
 	sound := true
 	allInstrs(h, func(in ssa.Instruction) {
 		r, isR := in.(*ssa.Return)
-		if !isR || len(r.Results) != 2 {
+		if !isR {
 			return
 		}
-		if k, isC := r.Results[1].(*ssa.Const); isC && k.Value != nil && k.Value.String() == "false" {
+		res := retResults(r)
+		if len(res) != 2 {
+			return
+		}
+		if k, isC := res[1].(*ssa.Const); isC && k.Value != nil && k.Value.String() == "false" {
 			return
 		}
 		okRets++
-		if k, isC := r.Results[1].(*ssa.Const); !isC || k.Value == nil || k.Value.String() != "true" {
+		if k, isC := res[1].(*ssa.Const); !isC || k.Value == nil || k.Value.String() != "true" {
 			// ok forwarded from the lookup itself: the presence test is the result; the access test must still dominate
 			sound = false
 			return
 		}
-		if !pageGuarded(h, r, r.Results[0]) {
+		if !pageGuarded(h, r, res[0]) {
 			sound = false
 		}
 	})
